@@ -143,7 +143,7 @@ class Run:
             self._violation(o.name, path, rec, detail, False)
         else:
             json.dump(rec, open(path, 'w'), indent=1, default=str)
-            self.undecided.append(f'{o.name}: {r["status"]} ({r.get("detail")}); replay file {path}')
+            self.undecided.append(f'{o.name[:160]}: {r["status"]} ({r.get("detail")}) stages={r.get("trace")}; replay file {path}')
 
     def _violation(self, what, path, rec, detail, reproduced):
         if any(v['what'] == what for v in self.violations):
